@@ -28,6 +28,8 @@ use std::mem::MaybeUninit;
 use std::sync::atomic::{AtomicBool, AtomicPtr, AtomicU64, Ordering};
 use std::{ptr, slice};
 
+#[cfg(feature = "verif-hooks")]
+use crate::verif::{point, site};
 use crate::{Item, Utf32String};
 
 const BUCKETS: u32 = u32::BITS - SKIP_BUCKET;
@@ -78,6 +80,8 @@ impl<T> Vec<T> {
     /// Returns the number of elements in the vector.
     #[inline]
     pub fn count(&self) -> u32 {
+        #[cfg(feature = "verif-hooks")]
+        point(site::BOXCAR_COUNT, 0);
         self.inflight
             .load(Ordering::Acquire)
             .min(MAX_ENTRIES as u64) as u32
@@ -91,6 +95,8 @@ impl<T> Vec<T> {
     #[inline]
     pub unsafe fn get_unchecked(&self, index: u32) -> Item<'_, T> {
         let location = Location::of(index);
+        #[cfg(feature = "verif-hooks")]
+        point(site::BOXCAR_GET_LOAD, index as u64);
 
         unsafe {
             let entries = self
@@ -98,8 +104,16 @@ impl<T> Vec<T> {
                 .get_unchecked(location.bucket as usize)
                 .entries
                 .load(Ordering::Relaxed);
+            #[cfg(feature = "verif-hooks")]
+            if entries.is_null() {
+                point(site::FATAL_UNINIT, index as u64);
+            }
             debug_assert!(!entries.is_null());
             let entry = Bucket::<T>::get(entries, location.entry, self.columns);
+            #[cfg(feature = "verif-hooks")]
+            if !(*entry).active.load(Ordering::Relaxed) {
+                point(site::FATAL_UNINIT, index as u64);
+            }
             // this looks odd but is necessary to ensure cross
             // thread synchronization (essentially acting as a memory barrier)
             // since the caller must only guarantee that he has observed active on any thread
@@ -112,6 +126,8 @@ impl<T> Vec<T> {
     /// Returns a reference to the element at the given index.
     pub fn get(&self, index: u32) -> Option<Item<'_, T>> {
         let location = Location::of(index);
+        #[cfg(feature = "verif-hooks")]
+        point(site::BOXCAR_GET_LOAD, index as u64);
 
         unsafe {
             // safety: `location.bucket` is always in bounds
@@ -128,6 +144,8 @@ impl<T> Vec<T> {
 
             // safety: `location.entry` is always in bounds for it's bucket
             let entry = Bucket::<T>::get(entries, location.entry, self.columns);
+            #[cfg(feature = "verif-hooks")]
+            point(site::BOXCAR_GET_ACTIVE, index as u64);
 
             // safety: the entry is active
             (*entry)
@@ -139,9 +157,13 @@ impl<T> Vec<T> {
 
     /// Appends an element to the back of the vector.
     pub fn push(&self, value: T, fill_columns: impl FnOnce(&T, &mut [Utf32String])) -> u32 {
+        #[cfg(feature = "verif-hooks")]
+        point(site::BOXCAR_PUSH_RESERVE, 0);
         let index = self.inflight.fetch_add(1, Ordering::Release);
         // the inflight counter is a `u64` to catch overflows of the vector'scapacity
         let index: u32 = index.try_into().expect("overflowed maximum capacity");
+        #[cfg(feature = "verif-hooks")]
+        point(site::BOXCAR_PUSH_RESERVED, index as u64);
         let location = Location::of(index);
 
         // eagerly allocate the next bucket if we are close to the end of this one
@@ -153,6 +175,8 @@ impl<T> Vec<T> {
 
         // safety: `location.bucket` is always in bounds
         let bucket = unsafe { self.buckets.get_unchecked(location.bucket as usize) };
+        #[cfg(feature = "verif-hooks")]
+        point(site::BOXCAR_BUCKET_LOAD, index as u64);
         let mut entries = bucket.entries.load(Ordering::Acquire);
 
         // the bucket has not been allocated yet
@@ -176,8 +200,12 @@ impl<T> Vec<T> {
             }
             fill_columns(&value, Entry::matcher_cols_mut(entry, self.columns));
             (*entry).slot.get().write(MaybeUninit::new(value));
+            #[cfg(feature = "verif-hooks")]
+            point(site::BOXCAR_PUBLISH, index as u64);
             // let other threads know that this entry is active
             (*entry).active.store(true, Ordering::Release);
+            #[cfg(feature = "verif-hooks")]
+            point(site::BOXCAR_PUBLISHED, index as u64);
         }
 
         index
@@ -201,11 +229,15 @@ impl<T> Vec<T> {
         }
 
         // Reserve all indices at once
+        #[cfg(feature = "verif-hooks")]
+        point(site::BOXCAR_EXTEND_RESERVE, count as u64);
         let start_index: u32 = self
             .inflight
             .fetch_add(u64::from(count), Ordering::Release)
             .try_into()
             .expect("overflowed maximum capacity");
+        #[cfg(feature = "verif-hooks")]
+        point(site::BOXCAR_EXTEND_RESERVED, start_index as u64);
 
         // Compute first and last locations
         let start_location = Location::of(start_index);
@@ -223,6 +255,8 @@ impl<T> Vec<T> {
         }
 
         let mut bucket = unsafe { self.buckets.get_unchecked(start_location.bucket as usize) };
+        #[cfg(feature = "verif-hooks")]
+        point(site::BOXCAR_BUCKET_LOAD, start_index as u64);
         let mut entries = bucket.entries.load(Ordering::Acquire);
         if entries.is_null() {
             entries = Vec::get_or_alloc(
@@ -246,6 +280,8 @@ impl<T> Vec<T> {
             if location.entry == 0 && i != 0 {
                 // safety: `location.bucket` is always in bounds
                 bucket = unsafe { self.buckets.get_unchecked(location.bucket as usize) };
+                #[cfg(feature = "verif-hooks")]
+                point(site::BOXCAR_BUCKET_LOAD, start_index as u64 + i as u64);
                 entries = bucket.entries.load(Ordering::Acquire);
 
                 if entries.is_null() {
@@ -266,7 +302,11 @@ impl<T> Vec<T> {
                 }
                 fill_columns(&v, Entry::matcher_cols_mut(entry, self.columns));
                 (*entry).slot.get().write(MaybeUninit::new(v));
+                #[cfg(feature = "verif-hooks")]
+                point(site::BOXCAR_PUBLISH, start_index as u64 + i as u64);
                 (*entry).active.store(true, Ordering::Release);
+                #[cfg(feature = "verif-hooks")]
+                point(site::BOXCAR_PUBLISHED, start_index as u64 + i as u64);
             }
         }
     }
@@ -274,6 +314,8 @@ impl<T> Vec<T> {
     /// race to initialize a bucket
     fn get_or_alloc(bucket: &Bucket<T>, len: u32, cols: u32) -> *mut Entry<T> {
         let entries = unsafe { Bucket::alloc(len, cols) };
+        #[cfg(feature = "verif-hooks")]
+        point(site::BOXCAR_CAS, len as u64);
         match bucket.entries.compare_exchange(
             ptr::null_mut(),
             entries,
@@ -292,6 +334,8 @@ impl<T> Vec<T> {
     /// the iterator is deterministically sized and will not grow
     /// as more elements are pushed
     pub unsafe fn snapshot(&self, start: u32) -> Iter<'_, T> {
+        #[cfg(feature = "verif-hooks")]
+        point(site::BOXCAR_SNAPSHOT, start as u64);
         let end = self
             .inflight
             .load(Ordering::Acquire)
@@ -309,6 +353,8 @@ impl<T> Vec<T> {
     /// the iterator is deterministically sized and will not grow
     /// as more elements are pushed
     pub unsafe fn par_snapshot(&self, start: u32) -> ParIter<'_, T> {
+        #[cfg(feature = "verif-hooks")]
+        point(site::BOXCAR_SNAPSHOT, start as u64);
         let end = self
             .inflight
             .load(Ordering::Acquire)
@@ -369,6 +415,8 @@ impl<'v, T> Iterator for Iter<'v, T> {
         debug_assert!(self.end as u64 <= self.vec.inflight.load(Ordering::Relaxed));
 
         loop {
+            #[cfg(feature = "verif-hooks")]
+            point(site::BOXCAR_ITER_LOAD, self.idx as u64);
             let entries = unsafe {
                 self.vec
                     .buckets
